@@ -273,7 +273,13 @@ def gen_media(rng, c, shared):
                 c["mjs"].append(f)
         if rng.random() < 0.15:
             c["mjs"].append("TAG:" + rng.choice(JS_FILES[:3]))       # SafeString tag, custom attributes
-        shared["js"] += [f for f in c["mjs"] if not f.startswith("TAG:")]
+        shared["js"] += [f for f in c["mjs"] if isinstance(f, str) and not f.startswith("TAG:")]
+        if rng.random() < 0.2:
+            # SafeString tags that carry a data-src attribute in front of / behind the real src (fixed 5a3b5e6)
+            for f in rng.sample(["s/lz1.js", "s/lz2.js", "s/a.js", "s/b.js"], rng.randint(1, 2)):
+                if f not in c["mjs"]:
+                    c["mjs"].append(["raw", rng.choice(['<script data-src="lazy" src="%s"></script>', '<script src="%s" data-src="lazy"></script>',
+                                                        '<script data-x-src="s/a.js" src="%s" async></script>']) % f, f])
     if rng.random() < 0.55:
         pool = CSS_FILES + shared["css"] * 2
         fs = []
@@ -293,6 +299,10 @@ def gen_media(rng, c, shared):
         else:
             c["mcss"] = fs   # list form (django-components normalises to {"all": ...})
         shared["css"] += fs
+        if isinstance(c["mcss"], list) and rng.random() < 0.35:
+            for f in rng.sample(["s/lz1.css", "s/lz2.css", "s/a.css"], rng.randint(1, 2)):
+                if f not in c["mcss"]:
+                    c["mcss"].append(["raw", '<link data-href="lazy" href="%s" rel="stylesheet">' % f, f])
 
 
 def gen_class(rng, i, ncls, classes, names_used, allow_ph, uni, shared):
@@ -318,8 +328,8 @@ def gen_class(rng, i, ncls, classes, names_used, allow_ph, uni, shared):
         c["extend"] = False
     elif r < 0.27 and i > 0:
         c["extend"] = sorted(rng.sample(range(i), rng.randint(1, min(2, i))))
-    c["jsdata"] = rng.random() < 0.12
-    c["cssdata"] = rng.random() < 0.08
+    c["jsdata"] = rng.random() < 0.15
+    c["cssdata"] = rng.random() < 0.2
     c["root"] = rng.choice(["div", "div", "multi", "text", "bare"])
     return c
 
@@ -414,7 +424,7 @@ def add_slots(rng, tpl, usable, decl, budget):
 def gen_prog(rng, uni=None, ph_in_classes=None):
     ncls = rng.randint(1, 5)
     uni = rng.random() < 0.35 if uni is None else uni
-    ph_in_classes = rng.random() < 0.12 if ph_in_classes is None else ph_in_classes
+    ph_in_classes = rng.random() < 0.2 if ph_in_classes is None else ph_in_classes
     names = set()
     shared = {"js": [], "css": []}
     classes = []
@@ -556,6 +566,10 @@ def features(prog):
         f.append("two-bases")
     if any(isinstance(c.get("mcss"), dict) and len({x for v in c["mcss"].values() for x in v}) < sum(len(v) for v in c["mcss"].values()) for c in cs):
         f.append("css-file-under-2-media")
+    if any(isinstance(x, list) for c in cs for x in list(c["mjs"]) + (c["mcss"] if isinstance(c["mcss"], list) else [])):
+        f.append("data-src/data-href-tag")
+    if any(c.get("cssdata") or c.get("jsdata") for c in cs):
+        f.append("js/css-variables")
     if any(any(ord(ch) > 127 for ch in c["name"]) for c in cs):
         f.append("non-ascii-name")
     if any(c["name"].count("_") >= 2 or c["name"][0] == "_" for c in cs):
@@ -613,7 +627,7 @@ class Built:
                     m["js"] = [mark_safe(f[1]) if isinstance(f, list) else
                                mark_safe('<script src="%s" defer></script>' % f[4:]) if f.startswith("TAG:") else f for f in c["mjs"]]
                 if c["mcss"] is not None:
-                    m["css"] = c["mcss"]
+                    m["css"] = [mark_safe(f[1]) if isinstance(f, list) else f for f in c["mcss"]] if isinstance(c["mcss"], list) else c["mcss"]
                 if "extend" in c:
                     m["extend"] = c["extend"] if c["extend"] is False else [self.classes[b] for b in c["extend"]]
                 attrs["Media"] = type("Media", (), m)
@@ -659,7 +673,7 @@ class Built:
             own = [f[2] if isinstance(f, list) else f[4:] if f.startswith("TAG:") else f for f in c["mjs"]]   # ["raw", tag html, url]
         else:
             m = c["mcss"]
-            own = [] if m is None else (list(m) if isinstance(m, list) else [f for fs in m.values() for f in fs])
+            own = [] if m is None else ([f[2] if isinstance(f, list) else f for f in m] if isinstance(m, list) else [f for fs in m.values() for f in fs])
         ext = c.get("extend", True)
         if ext is False:
             sel = []
@@ -817,19 +831,20 @@ def cut_at_markers(mid, calls):
     return pieces, mid[at:]
 
 
-_ph_re = re.compile(r'<link name="CSS_PLACEHOLDER"( data-djc-css-\w{6}="")?((?: data-djc-id-\w{6}="")*)(/?)>'
-                    r'|<script name="JS_PLACEHOLDER"( data-djc-css-\w{6}="")?((?: data-djc-id-\w{6}="")*)></script>', re.A)
+_ph_re = re.compile(r'<link name="CSS_PLACEHOLDER"((?: data-djc-(?:id|css)-\w{6}="")*)(/?)>'
+                    r'|<script name="JS_PLACEHOLDER"((?: data-djc-(?:id|css)-\w{6}="")*)></script>', re.A)
 
 
 def cut_at_placeholders(text):
-    """Marker-free text -> ([(text, (kind, css|None, [ids], slash))], tail), by the harness's own regex."""
+    """Marker-free text -> ([(text, (kind, [(is_css, value)], slash))], tail), by the harness's own regex (attributes in any order;
+    whether the implementation's pattern accepts that order is decided by the model, see ph_wfb)."""
     pieces, at = [], 0
     for m in _ph_re.finditer(text):
         if m.group(0).startswith("<link"):
-            css, ids, slash, kind = m.group(1), m.group(2), m.group(3) == "/", "css"
+            attrs, slash, kind = m.group(1), m.group(2) == "/", "css"
         else:
-            css, ids, slash, kind = m.group(4), m.group(5), False, "js"
-        pieces.append((text[at:m.start()], (kind, css[14:20] if css else None, re.findall(r"data-djc-id-(\w{6})", ids), slash)))
+            attrs, slash, kind = m.group(3), False, "js"
+        pieces.append((text[at:m.start()], (kind, [(a == "css", v) for a, v in re.findall(r"data-djc-(id|css)-(\w{6})", attrs)], slash)))
         at = m.end()
     return pieces, text[at:]
 
@@ -843,9 +858,9 @@ def c_doc_case(mid, pieces, tail):
 
 
 def c_phspec(p):
-    kind, css, ids, slash = p
-    return "{| ph_kind := %s; ph_css := %s; ph_ids := %s; ph_slash := %s |}" % (
-        c_kind(kind), copt(css, lambda s: cstr(b(s))), clist([cstr(b(i)) for i in ids]), "true" if slash else "false")
+    kind, attrs, slash = p
+    return "{| ph_kind := %s; ph_attrl := %s; ph_slash := %s |}" % (
+        c_kind(kind), clist(["(%s, %s)" % ("true" if c else "false", cstr(b(v))) for c, v in attrs]), "true" if slash else "false")
 
 
 def c_page_case(typ, tbl, pieces, tail, ph, js_toks, css_toks, js_s, css_s, final_b):
